@@ -884,6 +884,7 @@ class Interp:
             self.loop_ids += 1
             lid = f"L{self.loop_ids}"
             self.join_depth += 1
+            self.ops.comp_enter(info)
             try:
                 ev = self.ops.loop_elem(elem, lid, info)
                 self.assign(g.target, ev, env, n)
@@ -894,6 +895,7 @@ class Interp:
                 r = self._comp_rec(n, gens, gi + 1, env, kind)
             finally:
                 self.join_depth -= 1
+                self.ops.comp_exit(info)
             res = self.ops.comp_abstract(r, kind, info, lid, filtered, n, env)
         if gi == 0:
             return res[1] if isinstance(res, tuple) and res and res[0] == "leaf" else res
